@@ -40,6 +40,9 @@ Section Oracle.
   Definition chk_roots (c : ctx) (n : N) (rs : list H) : bool :=
     (n =? cn c) && list_eqb Heqb rs (croots c).
 
+  (** C10: the number of tracked live leaves *)
+  Definition chk_count (c : ctx) (v : N) : bool := v =? N.of_nat (length (live (cs c))).
+
   (** C10: look-ups.  [tracked] says whether the instance is supposed to track this hash
       (always true for full forests). *)
   Definition exp_leafpos (c : ctx) (tracked : bool) (h : H) : option N :=
@@ -50,6 +53,13 @@ Section Oracle.
   Definition chk_gethash (c : ctx) (full : bool) (p : N) (res : H) : bool :=
     let e := hash_at HO (crows c) (clay c) p in
     Heqb res e || (negb full && Heqb res empty).
+
+  (** the one listed exception (known finding D7): a map forest allocated higher than needed answers
+      a read beyond the minimal geometry with the node that the position denotes in its own
+      (TotalRows) coordinates *)
+  Definition gethash_d7_class (c : ctx) (total : nat) (p : N) (res : H) : bool :=
+    Nat.ltb (crows c) total && (2 ^ (N.of_nat (crows c) + 1) - 2 <? p)
+    && negb (Heqb res empty) && Heqb res (hash_at HO total (clay c) p).
 
   (** C02: canonical proofs *)
   Definition exp_prove (c : ctx) (hs : list H) : option (list N * list H) :=
